@@ -69,6 +69,25 @@ def float_candidates(x, width):
     for t in (repr(x), f"{x:g}"):
         if len(t) <= width and "n" not in t:  # no nan / inf
             out.append(t)
+    # other spellings of the same notations that every ASCII float reader accepts
+    # ([+-]? (digits [. digits*] | . digits) ([eE] [+-]? digits)?): no leading zero (".5",
+    # "-.5E-01", as Fortran writers produce), bare trailing point ("5."), short exponents ("1E5")
+    extra = []
+    for t in out:
+        if t.startswith("0.") and len(t) > 2:
+            extra.append(t[1:])
+        elif t.startswith("-0.") and len(t) > 3:
+            extra.append("-" + t[2:])
+        mant, sep, exp = t.partition("E") if "E" in t else t.partition("e")
+        if sep:
+            sign = "-" if exp.startswith("-") else ""
+            digits = exp.lstrip("+-").lstrip("0") or "0"
+            extra.append(f"{mant}{sep}{sign}{digits}")
+            if "." not in mant and len(t) + 1 <= width:
+                extra.append(f"{mant}.{sep}{exp}")
+        elif "." not in t and len(t) + 1 <= width:
+            extra.append(t + ".")
+    out.extend(e for e in extra if len(e) <= width)
     return out
 
 
